@@ -138,7 +138,12 @@ R11.4 config templates and mock templates are both created with Funcs(template_f
 			}
 			for k, w := range want {
 				key := "ParseTemplates|binding|" + k
-				if f[k] == w {
+				got := f[k]
+				// the zero value of a string variable and the literal "" are the same binding
+				if (w == `""` && got == "zero") || (w == "zero" && got == `""`) {
+					got = w
+				}
+				if got == w {
 					c.OK("R11.1", key, r.Pos(fd.Body.List[idx].Pos()), k+" <- "+w)
 				} else {
 					c.Fail("R11.1", key, r.Pos(fd.Body.List[idx].Pos()), fmt.Sprintf("template variable %s is bound to %q on path %s; documented source: %s", k, f[k], p.String(), w))
@@ -237,16 +242,19 @@ R11.4 config templates and mock templates are both created with Funcs(template_f
 		f := FuncDecl(p, site.fn)
 		ok := false
 		if f != nil {
-			ast.Inspect(f.Body, func(n ast.Node) bool {
-				if call, isCall := n.(*ast.CallExpr); isCall && calleeName(p.TypesInfo, call) == "(text/template.Template).Funcs" && len(call.Args) == 1 {
-					if se, isSel := call.Args[0].(*ast.SelectorExpr); isSel {
-						if v, isVar := p.TypesInfo.Uses[se.Sel].(*types.Var); isVar && v.Pkg().Path() == modPath+"/template_funcs" && v.Name() == "FuncMap" {
-							ok = true
+			// in the function itself or in a function of the package it calls
+			for _, g := range withCallees(p, f) {
+				ast.Inspect(g.Body, func(n ast.Node) bool {
+					if call, isCall := n.(*ast.CallExpr); isCall && calleeName(p.TypesInfo, call) == "(text/template.Template).Funcs" && len(call.Args) == 1 {
+						if se, isSel := call.Args[0].(*ast.SelectorExpr); isSel {
+							if v, isVar := p.TypesInfo.Uses[se.Sel].(*types.Var); isVar && v.Pkg().Path() == modPath+"/template_funcs" && v.Name() == "FuncMap" {
+								ok = true
+							}
 						}
 					}
-				}
-				return true
-			})
+					return true
+				})
+			}
 		}
 		c.Check(ok, "R11.4", site.pkg+"."+site.fn+"|funcmap", site.pkg, "created with Funcs(template_funcs.FuncMap)", site.pkg+"."+site.fn+" does not install template_funcs.FuncMap: the documented function library is unavailable there")
 	}
@@ -338,26 +346,35 @@ func ruleFixpoint(c *Ctx, r *Repo, cp *packages.Package, fd *ast.FuncDecl) {
 	var oldObj types.Object
 	oldIdx, storeIdx, cmpIdx := -1, -1, -1
 	nSetTrue := 0
+	fc := newFuncCanon(info, fd)
+	newVal := "" // canonical form of what was stored through the pointer
 	for i, s := range inner.Body.List {
 		switch x := s.(type) {
 		case *ast.AssignStmt:
 			if len(x.Lhs) == 1 && len(x.Rhs) == 1 {
-				if x.Tok == token.DEFINE && isDeref(x.Rhs[0]) {
+				if x.Tok == token.DEFINE && isDeref(x.Rhs[0]) && storeIdx < 0 {
 					oldObj = info.Defs[x.Lhs[0].(*ast.Ident)]
 					oldIdx = i
 				}
-				if x.Tok == token.ASSIGN && isDeref(x.Lhs[0]) && strings.HasSuffix(types.ExprString(x.Rhs[0]), ".String()") {
+				if x.Tok == token.ASSIGN && isDeref(x.Lhs[0]) {
 					storeIdx = i
+					newVal = fc.E(x.Rhs[0])
 				}
 			}
 		case *ast.IfStmt:
-			if be, ok := x.Cond.(*ast.BinaryExpr); ok && be.Op == token.NEQ {
-				a, b := be.X, be.Y
-				if !isDeref(a) {
+			if be, ok := x.Cond.(*ast.BinaryExpr); ok && be.Op == token.NEQ && x.Init == nil && x.Else == nil {
+				a, b := ast.Unparen(be.X), ast.Unparen(be.Y)
+				isOld := func(e ast.Expr) bool {
+					id, ok := e.(*ast.Ident)
+					return ok && oldObj != nil && info.Uses[id] == oldObj
+				}
+				if isOld(a) {
 					a, b = b, a
 				}
-				if id, ok := b.(*ast.Ident); ok && isDeref(a) && info.Uses[id] == oldObj && len(x.Body.List) == 1 {
-					if as, ok := x.Body.List[0].(*ast.AssignStmt); ok && types.ExprString(as.Rhs[0]) == "true" {
+				// a: the value now behind the pointer (read back, or the very expression that was stored)
+				isNew := isDeref(a) || (storeIdx >= 0 && fc.E(a) == newVal)
+				if isNew && isOld(b) && len(x.Body.List) == 1 {
+					if as, ok := x.Body.List[0].(*ast.AssignStmt); ok && len(as.Lhs) == 1 && len(as.Rhs) == 1 && types.ExprString(as.Rhs[0]) == "true" {
 						if l, ok := as.Lhs[0].(*ast.Ident); ok && info.Uses[l] == flagObj {
 							cmpIdx = i
 						}
